@@ -157,11 +157,11 @@ Proof.
 Qed.
 
 Lemma restart_fold_PInv sc now m e0 : forall l s e, PInv sc m e0 s ->
-  PInv sc m e0 (fst (fold_left (fun (acc : xs * bool) stage => if snd acc then acc else at_sim_start (nmods sc) (cfg sc m) now m stage (fst acc)) l (s, e))).
+  PInv sc m e0 (fst (fold_left (fun (acc : xs * bool) stage => if snd acc then acc else restart_stage (nmods sc) (cfg sc m) now m stage (fst acc)) l (s, e))).
 Proof.
   induction l as [|st l IH]; intros s e H; cbn [fold_left fst snd]; [exact H|].
   destruct e; [apply IH, H|].
-  pose proof (at_sim_start_PInv sc (nmods sc) now m st e0 s eq_refl H) as H1.
+  pose proof (at_sim_start_PInv sc (nmods sc) now m st e0 s eq_refl H) as H1. unfold restart_stage.
   destruct (at_sim_start (nmods sc) (cfg sc m) now m st s) as [s1 e1]. apply IH, H1.
 Qed.
 
